@@ -5,6 +5,7 @@ import (
 	"regexp"
 	"strconv"
 	"strings"
+	"unicode/utf8"
 
 	"github.com/nyaruka/gocommon/dates"
 	"github.com/nyaruka/gocommon/i18n"
@@ -288,12 +289,14 @@ func HasBeginning(env envs.Environment, text *types.XText, beginning *types.XTex
 		return FalseResult
 	}
 
-	// haystack has to be at least length of needle
-	if len(hayStack) < len(pinCushion) {
+	// haystack has to be at least length of needle - in characters as case variants can differ in encoded length
+	hayRunes := []rune(hayStack)
+	pinLength := utf8.RuneCountInString(pinCushion)
+	if len(hayRunes) < pinLength {
 		return FalseResult
 	}
 
-	segment := hayStack[:len(pinCushion)]
+	segment := string(hayRunes[:pinLength])
 	if strings.EqualFold(segment, pinCushion) {
 		return NewTrueResult(types.NewXText(segment))
 	}
